@@ -175,7 +175,17 @@ func (n *NetSim) handle(scheme, addr string, w http.ResponseWriter, r *http.Requ
 		fmt.Fprintf(w, "status %d", status)
 		return
 	}
-	if rt.Corrupt != "" {
+	if rt.Corrupt == "torn" {
+		// the file is being rewritten on the server while it is read: the new version up to a point, the old one after it
+		if alt, ok := n.Artefacts[rt.Artefact+":old"]; ok && len(body) > 0 {
+			p := rt.Pos % (len(body) + 1)
+			torn := append([]byte{}, body[:p]...)
+			if p < len(alt) {
+				torn = append(torn, alt[p:]...)
+			}
+			body = torn
+		}
+	} else if rt.Corrupt != "" {
 		body = corruptBytes(body, rt.Corrupt, rt.Pos)
 	}
 	w.Header().Set("Content-Type", "application/octet-stream")
